@@ -379,11 +379,11 @@ def r11d(model: Model, rr: RuleResult):
     if have_len:
         rr.ok("length mismatch raises before setGlyphOrder")
     else:
-        rr.bad(fi, fi.node, "no length check on the new glyph order guards setGlyphOrder", construct="reorder_glyphs: len check")
+        rr.bad_shape(fi, fi.node, "no length check on the new glyph order guards setGlyphOrder", construct="reorder_glyphs: len check")
     if have_set:
         rr.ok("set mismatch raises before setGlyphOrder")
     else:
-        rr.bad(fi, fi.node, "no set-equality check on the new glyph order guards setGlyphOrder", construct="reorder_glyphs: set check")
+        rr.bad_shape(fi, fi.node, "no set-equality check on the new glyph order guards setGlyphOrder", construct="reorder_glyphs: set check")
 
 
 def _perm_direction(fi, listname: str, order: str):
@@ -491,14 +491,14 @@ def r11e(model: Model, rr: RuleResult):
         rr.bad(afi, setters[0], "the sorted parallel list is written back with setattr(value, <attr>): for dotted paths such as 'MarkArray.MarkRecord' that creates a "
                "junk attribute and leaves the real nested array in its old order", construct=short(setters[0]))
     else:
-        rr.bad(afi, c, "a copy of the parallel list is sorted: the table's own array keeps its old order while its coverage is re-sorted",
+        rr.bad_shape(afi, c, "a copy of the parallel list is sorted: the table's own array keeps its old order while its coverage is re-sorted",
                construct=f"_sort_by_gid(..., {short(c.args[2])}) <- {[short(d.value) for d in defs]}")
     lfi = model.func("reorder_glyphs", "ReorderList.apply")
     t = " ".join(norm(st) for st in lfi.body)
     if "lst = _get_dotted_attr(value, self.list_attr)" in t and "lst.sort(key=lambda v: font.getGlyphID(getattr(v, self.key)))" in t:
         rr.ok("ReorderList sorts the table's own list in place by the key glyph's id")
     else:
-        rr.bad(lfi, lfi.node, "ReorderList no longer sorts the table's own list in place by glyph id", construct="ReorderList.apply")
+        rr.bad_shape(lfi, lfi.node, "ReorderList no longer sorts the table's own list in place by glyph id", construct="ReorderList.apply")
 
 
 @RULES.rule("C11", "R11f", "every element is visited: no loop of the reordering pass can stop early", floor=4)
@@ -540,6 +540,10 @@ def r11f(model: Model, rr: RuleResult):
     ystmt = next(st for st in walk_body(tfi) if isinstance(st, ast.Expr) and st.value is ys[0])
     wtests = {id(w.test) for w in walk_body(tfi) if isinstance(w, ast.While)} | {id(w.iter) for w in walk_body(tfi) if isinstance(w, ast.For)}
     loop_texts = {norm(w.test) for w in walk_body(tfi) if isinstance(w, ast.While)} | {"deque()", "frontier"}
+    from ..dataflow import expr_closure as _ec
+    for w in walk_body(tfi):
+        if isinstance(w, ast.While):
+            loop_texts |= {norm(x) for x in _ec(tcfg, tcfg.node_for(w), w.test)[1]}
     yfacts = [(norm(e), pol) for e, pol in guard_facts(tcfg, tcfg.node_for(ystmt)) if id(e) not in wtests and norm(e) not in loop_texts]
     conts = [x for x in walk_body(tfi) if isinstance(x, ast.Continue)]
     app = [c for c in calls_in(tfi) if callee_tail(c) == "append" and norm(c.func.value) == "new_entries"]
@@ -547,7 +551,7 @@ def r11f(model: Model, rr: RuleResult):
     if not yfacts and not conts and app and not afacts:
         rr.ok("_traverse_ot_data yields every dequeued table and enqueues every sub-table unconditionally")
     else:
-        rr.bad(tfi, conts[0] if conts else ystmt, f"_traverse_ot_data skips tables ({[f for f, _ in yfacts + afacts] or 'continue'}): a sub-table that compares equal to one already seen "
+        (rr.bad if (conts or yfacts or afacts) else rr.bad_shape)(tfi, conts[0] if conts else ystmt, f"_traverse_ot_data skips tables ({[f for f, _ in yfacts + afacts] or 'continue'}): a sub-table that compares equal to one already seen "
                f"(BaseTable.__eq__ compares content) is never handed to the reorder rules and keeps the old glyph order", construct="_traverse_ot_data: conditional yield/enqueue")
 
 
@@ -593,4 +597,4 @@ def r11g(model: Model, rr: RuleResult):
     if len(sgo) == 1 and len(loops) >= 1 and cfg.dominates(cfg.node_for(sgo[0]), cfg.node_for(loops[0])) and cfg.postdominates(cfg.node_for(loops[0]), cfg.node_for(sgo[0])):
         rr.ok("reorder_glyphs: setGlyphOrder is always followed by the walk that applies the reorder rules")
     else:
-        rr.bad(fi, fi.node, "reorder_glyphs can set the new glyph order without walking the layout tables", construct="reorder_glyphs: setGlyphOrder not followed by the rule loop")
+        rr.bad_shape(fi, fi.node, "reorder_glyphs can set the new glyph order without walking the layout tables", construct="reorder_glyphs: setGlyphOrder not followed by the rule loop")
